@@ -87,6 +87,11 @@ def inject_listed(rng, r: dict, cls: str) -> list[str] | None:
     if cls == "missing_keyword":
         c = idx("if", "is", "then", "with", "cand", "op")
         i = rng.choice(c)
+        if rng.random() < 0.35:
+            # the keyword is there only in part (a typo that drops characters): still a missing keyword
+            w = words[i]
+            frag = rng.choice([w[:-1], w[1:]] if len(w) > 2 else [w[:1], w[1:]])
+            return words[:i] + [frag] + words[i + 1:]
         return words[:i] + words[i + 1:]
     if cls == "missing_variable":
         i = rng.choice(idx("var", "ovar"))
